@@ -216,6 +216,7 @@ class Summary:
         self.outs = {}      # param local -> leaves written through it (&mut)
         self.guards = []    # list of Guard (own + inlined)
         self.ret_fields = {}  # dotted field chain -> leaves of the returned value's field
+        self.out_fields = {}  # param local -> {dotted field chain ('' = the whole pointee) -> leaves written there}
 
 
 _SUMMARY_CACHE = {}
@@ -239,6 +240,16 @@ def summary(db, path, binding, depth, opaque, stack):
     for k in range(1, fn.arg_count + 1):
         if fn.local_ty(k).startswith('&mut'):
             s.outs[k] = set(fl.out.get(k, set()))
+            pre = f'a{k}'
+            of = {}
+            for key, lv in fl.pw.items():
+                if key == pre:
+                    of[''] = set(lv)
+                elif key.startswith(pre + '.') and '[' not in key:
+                    of[key[len(pre) + 1:]] = set(lv)
+                elif key.startswith(pre + '.') or key.startswith(pre + '['):
+                    of[''] = of.get('', set()) | set(lv)
+            s.out_fields[k] = of
     _SUMMARY_CACHE[key] = s
     return s
 
@@ -687,8 +698,16 @@ class Flow:
                     if k - 1 < len(args):
                         pl = op_place(args[k - 1])
                         if pl is not None:
-                            ch |= self._write(bi, {'l': pl['l'], 'p': ['*']},
-                                              self._subst(leaves, argl, bi, argaggs=aggs), t.get('line'))
+                            of = s.out_fields.get(k) or {}
+                            if of and '' not in of and not pl['p']:
+                                # the callee writes named fields only: keep them apart in the caller as well
+                                for chain, lv in of.items():
+                                    proj = ['*'] + [{'f': 0, 'n': nm} for nm in chain.split('.')]
+                                    ch |= self._write(bi, {'l': pl['l'], 'p': proj},
+                                                      self._subst(lv, argl, bi, argaggs=aggs), t.get('line'))
+                            else:
+                                ch |= self._write(bi, {'l': pl['l'], 'p': ['*']},
+                                                  self._subst(leaves, argl, bi, argaggs=aggs), t.get('line'))
             if not inlined:
                 res = None
         if res is None:
